@@ -276,7 +276,39 @@ def detector_spec(det, params):
 HISTORIES = [None, "used_buffer_array", "used_buffer_frame", "scorer_prefit_wide", None,
              # the same fitted detector has just predicted on *other objects* holding closely related data: the rows in another
              # order (reversed, rotated), or the same series with a block of interior rows revised (recalibration, imputed gap)
-             "predicted_on_reversed", "predicted_on_rotated", "predicted_on_revised"]
+             "predicted_on_reversed", "predicted_on_rotated", "predicted_on_revised",
+             # the detector was constructed with other settings, used on a series of the same length and re-configured with set_params
+             "reconfigured"]
+
+
+def reconfigured(spec, X):
+    """The detector of `spec`, but with a past: constructed with other values of its scalar hyper-parameters, used on data
+    of the same length (X rotated), then re-configured to `spec` with set_params - the scan loop of a user trying settings."""
+    import numpy as np
+
+    alt = dict(spec)
+    for key, change in (("bandwidth", 2), ("min_segment_length", 1), ("max_interval_length", 7), ("max_segment_length", 3),
+                        ("min_detection_interval", 0)):
+        if isinstance(alt.get(key), int):
+            alt[key] = alt[key] + change if key != "min_detection_interval" else 1
+    if "growth_factor" in alt:
+        alt["growth_factor"] = 2.0 if alt["growth_factor"] != 2.0 else 1.5
+    for key in ("threshold_scale", "penalty_scale", "collective_penalty_scale", "point_penalty_scale"):
+        if isinstance(alt.get(key), (int, float)):
+            alt[key] = alt[key] + 0.5
+    changed = {k_: spec[k_] for k_ in alt if alt[k_] != spec.get(k_) and not isinstance(spec.get(k_), dict)}
+    try:
+        det = build(alt)
+    except ValueError:
+        return build(spec)
+    other = np.roll(np.asarray(X), max(1, len(X) // 3), axis=0)
+    try:
+        det.fit(other)
+        det.predict(other)
+    except (ValueError, RuntimeError):
+        pass
+    det.set_params(**{k_: build(v_) for k_, v_ in changed.items()})
+    return det
 
 
 def related_predict(det, X, history):
